@@ -49,20 +49,20 @@ def row_eq(p, q):
     return p == q
 
 
-def mk_join(kind, tier='quick'):
-    def body(env, l0, l1, l2, r0, r1):
+def mk_join(kind, tier='quick', nl=3, nr=2):
+    def body(env, **kw):
         from vf import rt
-        lk = [concretize(x, 0, 2) for x in (l0, l1, l2)]
-        rk = [concretize(x, 0, 2) for x in (r0, r1)]
+        lk = [concretize(kw[f'l{i}'], 0, 2) for i in range(nl)]
+        rk = [concretize(kw[f'r{i}'], 0, 2) for i in range(nr)]
         return rt.untraced(lambda: run(env, lk, rk))
 
     def run(env, lk, rk):
         sf = env.sf
         fill = -1
-        lp = [101, 102, 103]     # payloads are distinct constants: they identify the source row of every output cell
-        rp = [201, 202]
-        left = sf.Frame.from_items((('k', env.array(lk, 'int64')), ('lv', env.array(lp, 'int64'))), index=[10, 11, 12])
-        right = sf.Frame.from_items((('k2', env.array(rk, 'int64')), ('rv', env.array(rp, 'int64'))), index=[20, 21])
+        lp = [101 + i for i in range(nl)]     # payloads are distinct constants: they identify the source row of every output cell
+        rp = [201 + i for i in range(nr)]
+        left = sf.Frame.from_items((('k', env.array(lk, 'int64')), ('lv', env.array(lp, 'int64'))), index=[10 + i for i in range(nl)])
+        right = sf.Frame.from_items((('k2', env.array(rk, 'int64')), ('rv', env.array(rp, 'int64'))), index=[20 + i for i in range(nr)])
         fn = getattr(left, 'join_' + kind)
         r = fn(right, left_columns='k', right_columns='k2', fill_value=fill)
         cols = r.columns.values.tolist()
@@ -70,31 +70,33 @@ def mk_join(kind, tier='quick'):
         # reference: nested loop
         out = []
         matched_l, matched_r = set(), set()
-        for i in range(3):
-            for j in range(2):
+        for i in range(nl):
+            for j in range(nr):
                 if lk[i] == rk[j]:
                     out.append([lk[i], lp[i], rk[j], rp[j]])
                     matched_l.add(i); matched_r.add(j)
         if kind in ('left', 'outer'):
-            for i in range(3):
+            for i in range(nl):
                 if i not in matched_l:
                     out.append([lk[i], lp[i], fill, fill])
         if kind in ('right', 'outer'):
-            for j in range(2):
+            for j in range(nr):
                 if j not in matched_r:
                     out.append([fill, fill, rk[j], rp[j]])
         exp = out
         # rows are compared as a multiset without looking at symbolic payload ORDER: match each expected row to a distinct observed row
         return [env.obs(cols), multiset_equal(got, exp)], [['k', 'lv', 'k2', 'rv'], True]
-    return Cond(f'join_{kind}', [('l0', 'int'), ('l1', 'int'), ('l2', 'int'), ('r0', 'int'), ('r1', 'int')], body,
-            ranges={p: (0, 2) for p in ('l0', 'l1', 'l2', 'r0', 'r1')},
+    names = [f'l{i}' for i in range(nl)] + [f'r{i}' for i in range(nr)]
+    return Cond(f'join_{kind}' + ('' if (nl, nr) == (3, 2) else f'_{nl}x{nr}'), [(p, 'int') for p in names], body,
+            ranges={p: (0, 2) for p in names},
             functions=['Frame._join'],
-            bounds='3-row left and 2-row right frame; key values symbolic in 0..2 (1:1 / 1:n / n:m / no match chosen by the solver); payloads distinct constants (row identity), fill -1',
+            bounds=f'{nl}-row left and {nr}-row right frame; key values symbolic in 0..2 (1:1 / 1:n / n:m / no match chosen by the solver); payloads distinct constants (row identity), fill -1',
             route=f'Frame.join_{kind}: exactly the matching row pairs (plus unmatched rows of the preserved side, filled)', tier=tier, timeout=400)
 
 
 for _k in ('inner', 'left', 'right', 'outer'):
     _add(mk_join(_k))
+    _add(mk_join(_k, tier='thorough', nl=4, nr=3)).timeout = 1500
 
 
 def body_set_unset(env, k0, k1, k2, p0, p1, p2):
